@@ -190,7 +190,7 @@ structure TaskSt where
   st : TSt := .unborn
   pend : Option String := none     -- result of the op it is suspended in
   pocket : Option Nat := none
-  hold : List Nat := []            -- harness bookkeeping: lock it acquires / holds
+  hold : List Nat := []            -- harness bookkeeping: locks it holds or is acquiring
   owned : List Nat := []           -- PriorityTask._holding_locks
   acq : Option Nat := none         -- suspended inside PriorityLock.acquire of this lock
 deriving Inhabited
@@ -229,10 +229,14 @@ def effT (w : World Q) : Nat → Nat → Rat
         let p := if w.tasks[e.obj]!.prioKind then effT w fuel e.obj else 0
         min acc p) acc) own
 
+/-- recursion bound for effective priorities / propagation: chains task → lock → waiter → … over
+    at most a handful of locks taken in a fixed order (acyclic) -/
+def effFuel : Nat := 12
+
 /-- `PrioritySchedulingMixin.get_priority(handle)` -/
 def gpH (w : World Q) (h : Nat) : Rat :=
   match w.handles[h]? with
-  | some (.step t) => if w.tasks[t]!.prioKind then effT w 4 t else 0
+  | some (.step t) => if w.tasks[t]!.prioKind then effT w effFuel t else 0
   | _ => 0
 
 def isTaskH (w : World Q) (t : Nat) (h : Nat) : Bool :=
@@ -310,6 +314,36 @@ def wakeFirst (l : Nat) : M Q Unit := do
       setTask e.obj fun ts => { ts with st := .ready }
       let h ← newHandle (.step e.obj)
       appendH O h
+
+/-- `PriorityTask.propagate_priority` (`propTask`) and `PriorityLock.propagate_priority`
+    (`propLock`), mutually recursive in the Python along the wait-for chain:
+    * a runnable PriorityTask is re-keyed in the ready queue with its effective priority
+      (`loop.task_reschedule`; a positional entry keeps its place);
+    * a PriorityTask blocked in `PriorityLock.acquire` (`_waiting_on`) forwards to that lock, which
+      first forwards to *its* owner and then re-keys the waiter in its `_waiters` queue;
+    * anything else (plain Task: AttributeError; blocked on a plain future; done) — nothing.
+    `inl o` = task `o`, `inr (l, from)` = lock `l` notified by its waiter `from`. -/
+def propagate : Nat → Nat ⊕ (Nat × Nat) → M Q Unit
+  | 0, _ => pure ()
+  | fuel + 1, .inl o => do
+    let w ← get
+    let ts := w.tasks[o]!
+    if !ts.prioKind then pure ()
+    else if ts.st == .ready then
+      set { w with q := O.resched w.q (isTaskH w o) (effT w effFuel o) }
+    else if ts.st == .blocked then
+      match ts.acq with
+      | some l2 => propagate fuel (.inr (l2, o))
+      | none => pure ()
+    else pure ()
+  | fuel + 1, .inr (l, frm) => do
+    let w ← get
+    match w.locks[l]!.owner with
+    | some o => propagate fuel (.inl o)
+    | none => pure ()
+    let w1 ← get
+    let p := effT w1 effFuel frm
+    setLock l fun ls => { ls with waiters := (ls.waiters.reschedule HW ratLt (· == frm) p).2 }
 
 /-- one operation of task `me`; returns (result, suspended?) -/
 def doOp (me : Nat) (op : Op) : M Q (String × Bool) := do
@@ -396,32 +430,28 @@ def doOp (me : Nat) (op : Op) : M Q (String × Bool) := do
       else pure ("w0", false)
     | none => pure ("w0", false)
   | .aq l =>
-    if !w.tasks[me]!.hold.isEmpty || l ≥ w.locks.size then pure ("nop", false) else do
-      setTask me fun ts => { ts with hold := [l] }
+    -- harness discipline: locks are taken in increasing order (no deadlock), never twice
+    if w.tasks[me]!.hold.any (fun h => h ≥ l) || l ≥ w.locks.size then pure ("nop", false) else do
+      setTask me fun ts => { ts with hold := l :: ts.hold }
       let ls := w.locks[l]!
       if !ls.locked && ls.waiters.pq.isEmpty then do
         takeLock me l
         pure ("ok", false)
       else do
         -- priority = task.effective_priority() (0 for a plain Task); self._waiters.add(priority, entry)
-        let p := if w.tasks[me]!.prioKind then effT w 4 me else 0
+        let p := if w.tasks[me]!.prioKind then effT w effFuel me else 0
         setLock l fun ls => { ls with waiters := ls.waiters.add HW ratLt p me }
-        -- owning.propagate_priority(self): a runnable PriorityTask owner is re-keyed in the
-        -- ready queue with its (new) effective priority; a blocked one forwards to what it
-        -- waits on (programs never make a lock owner wait on another lock).
+        -- with _waiting_on(task, self): …; owning.propagate_priority(self)
+        setTask me fun ts => { ts with acq := some l }
         match ls.owner with
-        | some o =>
-          let w1 ← get
-          if w1.tasks[o]!.prioKind && w1.tasks[o]!.st == .ready then
-            set { w1 with q := O.resched w1.q (isTaskH w1 o) (effT w1 4 o) }
-          else pure ()
+        | some o => propagate O effFuel (.inl o)
         | none => pure ()
-        setTask me fun ts => { ts with st := .blocked, acq := some l }
+        setTask me fun ts => { ts with st := .blocked }
         pure ("ok", true)
   | .rl l =>
-    if w.tasks[me]!.hold != [l] then pure ("nop", false) else do
+    if !w.tasks[me]!.hold.contains l || w.locks[l]!.owner != some me then pure ("nop", false) else do
       setLock l fun ls => { ls with owner := none, locked := false }
-      setTask me fun ts => { ts with hold := [], owned := ts.owned.erase l }
+      setTask me fun ts => { ts with hold := ts.hold.erase l, owned := ts.owned.erase l }
       wakeFirst O l
       pure ("ok", false)
   | .it => do
